@@ -21,7 +21,7 @@ pub enum Val {
     Slice { s: String, off: usize },
     Span(usize, usize),
     /// a fold step that also observed a span
-    FoldW { lo: usize, hi: usize, acc: Box<Val>, x: Box<Val> },
+    FoldW { lo: usize, lo2: usize, hi: usize, acc: Box<Val>, x: Box<Val> },
     /// recovery fallback marker produced at node `id`
     Fb(u32),
     /// observation of the inspector state / context made at node `id`
@@ -117,9 +117,10 @@ impl Val {
                 let (l, _) = f(*off, *off);
                 Val::Slice { s: s.clone(), off: l }
             }
-            Val::FoldW { lo, hi, acc, x } => {
+            Val::FoldW { lo, lo2, hi, acc, x } => {
                 let (l, h) = f(*lo, *hi);
-                Val::FoldW { lo: l, hi: h, acc: Box::new(acc.map_offsets(f)), x: Box::new(x.map_offsets(f)) }
+                let (l2, _) = f(*lo2, *hi);
+                Val::FoldW { lo: l, lo2: l2, hi: h, acc: Box::new(acc.map_offsets(f)), x: Box::new(x.map_offsets(f)) }
             }
             Val::Obs { id, n, h, ctx } => Val::Obs { id: *id, n: *n, h: *h, ctx: Box::new(ctx.map_offsets(f)) },
             other => other.clone(),
@@ -139,7 +140,7 @@ impl Val {
             Val::Node { id, lo, hi, v } => format!("#{}@{}..{}:{}", id, lo, hi, v.show()),
             Val::Slice { s, off } => format!("slice({:?}@{})", s, *off as i64),
             Val::Span(a, b) => format!("span({}..{})", a, b),
-            Val::FoldW { lo, hi, acc, x } => format!("fold@{}..{}({},{})", lo, hi, acc.show(), x.show()),
+            Val::FoldW { lo, hi, acc, x, .. } => format!("fold@{}..{}({},{})", lo, hi, acc.show(), x.show()),
             Val::Fb(i) => format!("FALLBACK{}", i),
             Val::Obs { id, n, h, ctx } => format!("obs{}(n={},h={:x},ctx={})", id, n, h & 0xffff, ctx.show()),
         }
